@@ -76,33 +76,7 @@ def run(an: Analysis, rep):
         cfg = vname(V)
         c11.r114(an, rep, V, rule="R01.1")
         # ---- R01.2
-        f, call, comp = slot_composition(an, V)
-        w = loc(f.module, call)
-        if comp is None:
-            rep.add("R01.2", f"{f.qual}::CodeType arity", False, w,
-                    f"CodeType(...) is called with {len(call.args)} positional arguments; code() of {cfg} takes {len(C.CODE_SLOTS[V])}", config=cfg)
-        else:
-            for s, (attrs, via, fields, argnode) in comp.items():
-                exp = expected_attr(s)
-                if s == "nlocals":
-                    exp = "co_varnames"  # derived: len(varnames); the decoder rejects a differing co_nlocals (R01.1)
-                key = f"{f.qual}::slot {s}"
-                if exp not in attrs:
-                    rep.add("R01.2", key, False, w,
-                            f"slot {s} of CodeType is built from {norm_src(argnode)}, whose data originates in {sorted(attrs) or 'no co_* attribute'} "
-                            f"(via {sorted(fmt_atom(a) for a in fields)[:4]}), not in {exp}: the round trip cannot reproduce {exp}", config=cfg)
-                    continue
-                foreign = set()
-                if exp in TABLE_ATTRS:
-                    foreign = (attrs & TABLE_ATTRS) - {exp}
-                elif exp in SCALAR_ATTRS:
-                    foreign = (attrs & SCALAR_ATTRS) - {exp}
-                if s == "nlocals":
-                    foreign = (attrs & TABLE_ATTRS) - {"co_varnames"}
-                rep.add("R01.2", key, not foreign, w,
-                        f"slot {s} also receives data that the decoder took from {sorted(foreign)} (via {sorted(x for a in foreign for x in via[a])[:3]}): roles are crossed, "
-                        f"e.g. names of one table are emitted into another" if foreign
-                        else f"{norm_src(argnode)} <- {sorted(fmt_atom(a) for a in fields)[:3]} <- {exp}", config=cfg)
+        r012(an, rep, V)
         # ---- R01.3
         reads = field_reads(an, "to_code", V)
         for ci in dcs:
@@ -151,6 +125,14 @@ def run(an: Analysis, rep):
     shg = SharedRules(rep, "R01.G", "every flag the decoder took into the data is written back exactly when its datum is set (shared with C11's R11.3): co_flags of the re-encoded object")
     for V in VERSIONS:
         rep.run(_c11.r113, an, shg, V, _dispositions(an, V)[0])
+    shh = SharedRules(rep, "R01.H2", "the encoder lays co_varnames out as CPython does and counts the parameters from the right fields (shared with C04's R04.3 / R04.4)")
+    rep.run(c04.r043, an, shh)
+    rep.run(c04.r044, an, shh)
+    from . import c08 as _c08s
+    rep.run(_c08s.r083, an, SharedRules(rep, "R01.B", "what the decoder stores has the declared (hashable) shape (shared with C08's R08.3): a list in a tuple field makes from_code of the enclosing code object raise"))
+    shw = SharedRules(rep, "R01.W2", "width decisions and re-layout of the encoder (shared with C03's R03.5 / R03.7): co_code of the re-encoded object")
+    rep.run(c03.r03w, an, shw)
+    rep.run(c03.r037, an, shw)
     rep.run(c04.r041, an, SharedRules(rep, "R01.H", "the decoder slices co_varnames into the parameter kinds by the argument counts (shared with C04's R04.1): names bound to the wrong kind re-encode with other counts / flags"))
     from .common import rejection_paths_rule
     shr = SharedRules(rep, "R01.R", "every place where from_code / to_code can stop with an exception is one confirmed by reading (shared with C02's R02.R / C03's R03.R): 'from_code succeeds' for every compiled code object")
@@ -186,6 +168,38 @@ def r014(an: Analysis, rep, V, rule="R01.4"):
                     else f"disposition '{d}'", config=cfg)
 
 
+def r012(an: Analysis, rep, V):
+    """Role conservation of every CodeType slot under interpreter V: slot s is built from data the decoder took from co_s (and, for tables, from no other table)."""
+    cfg = vname(V)
+    f, call, comp = slot_composition(an, V)
+    w = loc(f.module, call)
+    if comp is None:
+        rep.add("R01.2", f"{f.qual}::CodeType arity", False, w,
+                f"CodeType(...) is called with {len(call.args)} positional arguments; code() of {cfg} takes {len(C.CODE_SLOTS[V])}", config=cfg)
+    else:
+        for s, (attrs, via, fields, argnode) in comp.items():
+            exp = expected_attr(s)
+            if s == "nlocals":
+                exp = "co_varnames"  # derived: len(varnames); the decoder rejects a differing co_nlocals (R01.1)
+            key = f"{f.qual}::slot {s}"
+            if exp not in attrs:
+                rep.add("R01.2", key, False, w,
+                        f"slot {s} of CodeType is built from {norm_src(argnode)}, whose data originates in {sorted(attrs) or 'no co_* attribute'} "
+                        f"(via {sorted(fmt_atom(a) for a in fields)[:4]}), not in {exp}: the round trip cannot reproduce {exp}", config=cfg)
+                continue
+            foreign = set()
+            if exp in TABLE_ATTRS:
+                foreign = (attrs & TABLE_ATTRS) - {exp}
+            elif exp in SCALAR_ATTRS:
+                foreign = (attrs & SCALAR_ATTRS) - {exp}
+            if s == "nlocals":
+                foreign = (attrs & TABLE_ATTRS) - {"co_varnames"}
+            rep.add("R01.2", key, not foreign, w,
+                    f"slot {s} also receives data that the decoder took from {sorted(foreign)} (via {sorted(x for a in foreign for x in via[a])[:3]}): roles are crossed, "
+                    f"e.g. names of one table are emitted into another" if foreign
+                    else f"{norm_src(argnode)} <- {sorted(fmt_atom(a) for a in fields)[:3]} <- {exp}", config=cfg)
+
+
 def r016(an: Analysis, rep):
     """A jump that was encoded with more than one code unit keeps that width, whatever its operand: the minimal width depends on the final layout.
     (The statements that decide the recorded width are folded over jump / other x 1..4 units x operand sizes: C11's width_rule.)"""
@@ -196,9 +210,7 @@ def r016(an: Analysis, rep):
 def r015_order(an: Analysis, rep):
     """Both shifts by the first line number cover every line of the mapping: encoder - after the last line was stored; decoder - before the first line is consumed."""
     lm = an.prog.cls("code_data._line_mapping::LineMapping")
-    shift = next((m for m in lm.methods.values() if len(m.params) == 2 and any(isinstance(x, ast.AugAssign) for x in ast.walk(m.node))), None)
-    if shift is None:
-        raise AnalysisError("LineMapping shift method not found")
+    shift, _moved = find_line_shift(an)
     for side, entry in (("encode", "to_code"), ("decode", "from_code")):
         it, _ = an.interp(entry)
         for f in an.closure(entry):
@@ -314,14 +326,59 @@ def r01a(an: Analysis, rep, rule="R01.A", need="consumed"):
         raise AnalysisError("the decoder does not remove the later code units' entries from the line mapping: leftover handling not recognised")
 
 
+_shift_cache = {}
+
+
+def find_line_shift(an: Analysis):
+    """The LineMapping method that moves every line by a constant, found by what it does: folded on a small mapping, it changes the lines held in the mapping and
+    nothing else. Returns (method, {line before: line after} for the shift +10 and -10)."""
+    if "v" in _shift_cache:
+        return _shift_cache["v"]
+    from sa.feval import BlockOutcome, FevalError, Obj, ObjEval
+    lm = an.prog.cls("code_data._line_mapping::LineMapping")
+    dict_fields = [f.name for f in lm.fields if an.tg.field_type(f)[0] == "dict"]
+    found = None
+    for m in lm.methods.values():
+        if len(m.params) != 2 or m.name.startswith("__") or not isinstance(m.node, ast.FunctionDef):
+            continue
+        outs = {}
+        ok = True
+        for k in (10, -10):
+            ev = ObjEval(lambda name: None, extra={}, methods={x.name: x.node for x in lm.methods.values() if isinstance(x.node, ast.FunctionDef)})
+            ev.module_assigns = lm.module.assigns
+            lines = {0: 5, 2: None, 4: 0, 6: -3, 8: 40}
+            obj = Obj({fl: ({} if fl != dict_fields[0] else dict(lines)) for fl in dict_fields})
+            obj[dict_fields[0]] = dict(lines)
+            try:
+                ev.call_method(m.node, obj, k)
+            except (BlockOutcome, FevalError, KeyError, TypeError, IndexError, AttributeError):
+                ok = False
+                break
+            after = obj[dict_fields[0]]
+            if not isinstance(after, dict) or set(after) != set(lines) or after == lines:
+                ok = False
+                break
+            outs[k] = {lines[o]: after[o] for o in lines}
+        if ok:
+            found = (m, outs)
+    if found is None:
+        raise AnalysisError("LineMapping shift method not found (no two-parameter method moves the lines of a witness mapping)")
+    _shift_cache["v"] = found
+    return found
+
+
 def r015_every_line(an: Analysis, rep):
     """The shift by the first line number applies to EVERY line that is not None: lines are kept relative to co_firstlineno and may be
     negative or zero (a module that starts with a multi-line statement), so a condition on the value exempts real lines."""
     lm = an.prog.cls("code_data._line_mapping::LineMapping")
-    shift = next((m for m in lm.methods.values() if len(m.params) == 2 and any(isinstance(x, (ast.AugAssign, ast.BinOp)) for x in ast.walk(m.node))
-                  and any(isinstance(x, ast.Name) and x.id == m.params[1] for x in ast.walk(m.node))), None)
-    if shift is None:
-        raise AnalysisError("LineMapping shift method not found")
+    shift, moved = find_line_shift(an)
+    # folded on the witness mapping {5, None, 0, -3, 40}: every line that is not None moves by exactly the shift, None stays None
+    wrong = [f"shift {k:+d}: line {b!r} becomes {a!r}, expected {(b + k) if b is not None else None!r}" for k, mp in moved.items() for b, a in mp.items()
+             if a != ((b + k) if b is not None else None)]
+    rep.add("R01.5", f"{shift.qual}::the shift moves every line by exactly the given amount", not wrong, loc(shift.module, shift.node),
+            "on the witness lines 5, 0, -3, 40 and None: +10 and -10 are exact, None stays None" if not wrong else
+            f"{wrong[0]}: lines are kept relative to co_firstlineno and can be zero or negative (an instruction whose line lies before the first line of its code object: a decorator, "
+            f"an AST with its own line numbers), so a shift that is not exact re-encodes other line deltas than were decoded")
     bad = []
     for c in ast.walk(shift.node):
         if isinstance(c, ast.Compare):
